@@ -530,10 +530,37 @@ class _DiffEval:
     ('count', 'zero'|'pos'), ('int', n), True/False
     """
 
-    def __init__(self, scen, curr, prev):
+    def __init__(self, scen, curr, prev, prog=None, func=None):
         self.scen = scen
         self.curr = curr
         self.prev = prev
+        self.prog = prog
+        self.func = func
+        self.depth = 0
+
+    def _helper(self, e, env):
+        """a call of a single-expression helper of the same module is evaluated on the values of its arguments"""
+        if self.prog is None or self.depth >= 3:
+            return None
+        sym = self.prog.callee(e, self.func)
+        h = self.prog.func_of(sym) if sym else None
+        if h is None or sym in self.prog.classes or h.module is not self.func.module or h.cls is not None or h.parent is not None:
+            return None
+        body = [x for x in h.node.body if not (isinstance(x, ast.Expr) and isinstance(x.value, ast.Constant)) and not isinstance(x, ast.Pass)]
+        if len(body) != 1 or not isinstance(body[0], ast.Return) or body[0].value is None:
+            return None
+        b = _bind_args(e, h)
+        if b is None or set(b) != set(h.params()):
+            return None
+        env2 = {p: self.eval(a, env) for p, a in b.items()}
+        saved = (self.func, self.curr, self.prev)
+        self.func, self.curr, self.prev = h, '', ''
+        self.depth += 1
+        try:
+            return ('value', self.eval(body[0].value, env2))
+        finally:
+            self.depth -= 1
+            self.func, self.curr, self.prev = saved
 
     def truth(self, v):
         if v is True or v is False:
@@ -654,6 +681,9 @@ class _DiffEval:
     def call(self, e, env):
         if any(isinstance(a, ast.Starred) for a in e.args) or any(k.arg is None for k in e.keywords):
             raise Unsupported('star arguments')
+        hv = self._helper(e, env)
+        if hv is not None:
+            return hv[1]
         if isinstance(e.func, ast.Name):
             n = e.func.id
             if n in _WRAPPERS and not e.keywords:
@@ -826,7 +856,7 @@ def _extra_params(f, sites):
     return out
 
 
-def _diff_table(f, sites=()):
+def _diff_table(prog, f, sites=()):
     """-> ({scenario: set of selected flags}, [problems], evaluations) for dawgie.pl.schedule._diff"""
     params = f.params()
     if len(params) < 2 or f.node.args.vararg or f.node.args.kwarg:
@@ -864,7 +894,7 @@ def _diff_table(f, sites=()):
             return table, [('not-understood', g.iter, 'comprehension does not iterate over the names of the current table')], 0
         env0 = {**extras, **env0}
         for scen, _txt, _exp in SCENARIOS:
-            ev = _DiffEval(scen, curr, prev)
+            ev = _DiffEval(scen, curr, prev, prog, f)
             try:
                 if ev.eval(comp.elt, env0) != 'K':
                     raise Unsupported('collected element is not the name')
@@ -895,7 +925,7 @@ def _diff_table(f, sites=()):
         return table, problems + [('not-understood', loop.iter, 'loop does not iterate over the names of the current table')], 0
     env0 = {**extras, **env0}
     for scen, _txt, _exp in SCENARIOS:
-        fl = _DiffFlow(_DiffEval(scen, curr, prev), res)
+        fl = _DiffFlow(_DiffEval(scen, curr, prev, prog, f), res)
         out = fl.block(loop.body, {(False, frozenset(env0.items()))})
         evaluations += fl.visited
         for kind, node, text in fl.problems:
@@ -918,7 +948,7 @@ def _rule2(ctx, rep):
         breaks='a bumped version is not rescheduled, an unchanged one is rerun on every reload, or the reload crashes on a new name',
     ) as r:
         sites = [e.call for e in ctx.cg.callers(f.qname, kinds={'direct'})]
-        table, problems, evaluations = _diff_table(f, sites)
+        table, problems, evaluations = _diff_table(prog, f, sites)
         r.extra['truth_table_rows'] = len(SCENARIOS)
         r.extra['evaluations'] = evaluations
         seen = set()
@@ -1351,30 +1381,216 @@ def _parents(root):
     return out
 
 
-def _todo_value(prog, func, e, asp, depth=0):
+class _Cx:
+    """a function analysed in the context of one call chain that starts at build(): parameters are bound to the
+    caller's argument expressions (helper extraction / inlining must not change the verdict)"""
+
+    def __init__(self, func, bind=None, call=None, parent=None):
+        self.func = func
+        self.bind = bind or {}  # param -> (argument expression, caller _Cx)
+        self.call = call
+        self.parent = parent
+        self.depth = 0 if parent is None else parent.depth + 1
+        self.single = _single_assignments(func)
+        self.stored = {n.id for n in func.own_nodes() if isinstance(n, ast.Name) and isinstance(n.ctx, (ast.Store, ast.Del))}
+        self.unpack = {}
+        for n in func.own_nodes():
+            if isinstance(n, ast.Assign) and len(n.targets) == 1 and isinstance(n.targets[0], ast.Tuple) and isinstance(n.value, ast.Name):
+                for i, t in enumerate(n.targets[0].elts):
+                    if isinstance(t, ast.Name):
+                        self.unpack[t.id] = None if t.id in self.unpack else (n.value.id, i)
+        # a, b = x, y  binds each name once: same as two single assignments
+        count = {}
+        for n in func.own_nodes():
+            if isinstance(n, ast.Name) and isinstance(n.ctx, (ast.Store, ast.Del)):
+                count[n.id] = count.get(n.id, 0) + 1
+        for n in func.own_nodes():
+            if (
+                isinstance(n, ast.Assign)
+                and len(n.targets) == 1
+                and isinstance(n.targets[0], ast.Tuple)
+                and isinstance(n.value, ast.Tuple)
+                and len(n.targets[0].elts) == len(n.value.elts)
+                and not any(isinstance(x, ast.Starred) for x in n.targets[0].elts + n.value.elts)
+            ):
+                for t, v in zip(n.targets[0].elts, n.value.elts):
+                    if isinstance(t, ast.Name) and count.get(t.id) == 1 and t.id not in func.params():
+                        self.single[t.id] = v
+        self.sub = {}  # id(call node) -> _Cx of the followed callee
+        self._par = None
+
+    @property
+    def parents(self):
+        if self._par is None:
+            self._par = _parents(self.func.node)
+        return self._par
+
+    def chain(self):
+        out, c = [], self
+        while c is not None:
+            out.append(c.func.qname)
+            c = c.parent
+        return out
+
+
+def _scope(prog, root, exclude, maxdepth=2):
+    """root plus the plain functions of its module that it calls (two levels), each in its calling context"""
+    out, i = [_Cx(root)], 0
+    while i < len(out):
+        cx = out[i]
+        i += 1
+        if cx.depth >= maxdepth:
+            continue
+        for c in sorted(cx.func.calls(), key=lambda n: (n.lineno, n.col_offset)):
+            sym = prog.callee(c, cx.func)
+            h = prog.func_of(sym) if sym else None
+            if h is None or sym in prog.classes or h.module is not root.module or h.cls is not None or h.parent is not None:
+                continue
+            if h.qname in exclude or h.qname in cx.chain():
+                continue
+            b = _bind_args(c, h)
+            if b is None:
+                continue
+            sub = _Cx(h, {p: (a, cx) for p, a in b.items()}, c, cx)
+            cx.sub[id(c)] = sub
+            out.append(sub)
+    return out
+
+
+def _single_return(func):
+    rets = [n for n in func.own_nodes() if isinstance(n, ast.Return)]
+    if len(rets) == 1 and rets[0].value is not None and func.node.body and func.node.body[-1] is rets[0]:
+        return rets[0].value
+    return None
+
+
+def _resolve(e, cx, trail, depth=0):
+    """follow single-assignment locals, parameters (to the caller's argument) and calls of followed helpers (to their
+    single returned expression) -> (expression, context); trail collects the (local name, context) passed through"""
+    e = _strip(e)
+    if depth > 10:
+        return e, cx
+    if isinstance(e, ast.Name):
+        if e.id in cx.single:
+            trail.append((e.id, cx))
+            return _resolve(cx.single[e.id], cx, trail, depth + 1)
+        if e.id in cx.bind and e.id not in cx.stored:
+            trail.append((e.id, cx))
+            a, c2 = cx.bind[e.id]
+            return _resolve(a, c2, trail, depth + 1)
+    elif isinstance(e, ast.Call) and id(e) in cx.sub:
+        rv = _single_return(cx.sub[id(e)].func)
+        if rv is not None:
+            return _resolve(rv, cx.sub[id(e)], trail, depth + 1)
+    return e, cx
+
+
+def _origin(e, cx, root):
+    """(parameter of root, index) when e denotes ``param[index]`` (directly, through locals, unpacking or helper parameters)"""
+
+    def base(b, bcx):
+        b, bcx = _resolve(b, bcx, [])
+        if isinstance(b, ast.Name) and bcx.func is root and b.id in root.params() and b.id not in bcx.stored:
+            return b.id
+        return None
+
+    e, cx = _resolve(e, cx, [])
+    if isinstance(e, ast.Subscript) and isinstance(e.slice, ast.Constant) and isinstance(e.slice.value, int):
+        p = base(e.value, cx)
+        return (p, e.slice.value) if p else None
+    if isinstance(e, ast.Name) and cx.unpack.get(e.id):
+        src, i = cx.unpack[e.id]
+        p = base(ast.Name(id=src, ctx=ast.Load()), cx)
+        return (p, i) if p else None
+    return None
+
+
+def _loop_source(name, cx, node):
+    """the for loop binding ``name`` around ``node`` (continuing at the call site when name is a helper's parameter)"""
+    for _ in range(4):
+        x = node
+        while x in cx.parents:
+            x = cx.parents[x]
+            if isinstance(x, ast.For) and isinstance(x.target, ast.Name) and x.target.id == name:
+                return x, cx
+        if name in cx.bind and cx.call is not None and name not in cx.stored:
+            a, c2 = cx.bind[name]
+            a = _strip(a)
+            if not isinstance(a, ast.Name):
+                return None
+            name, node, cx = a.id, cx.call, c2
+            continue
+        return None
+    return None
+
+
+def _foreign_uses(prog, name, cx, organize_call, readers):
+    """loads of a local that are not plain reads on the way to organize -> [(node, reason)]"""
+    out = []
+    par = cx.parents
+    for n in cx.func.own_nodes():
+        if not (isinstance(n, ast.Name) and n.id == name and isinstance(n.ctx, ast.Load)):
+            continue
+        x, ok = n, False
+        while x in par and not ok:
+            p = par[x]
+            if isinstance(p, ast.Call) and isinstance(p.func, ast.Name) and p.func.id in _WRAPPERS + ('len',) and x in p.args:
+                x = p
+            elif isinstance(p, ast.BinOp) and isinstance(p.op, ast.Add):
+                x = p  # concatenation builds a new list
+            elif isinstance(p, ast.keyword):
+                x = p
+            elif isinstance(p, ast.Call) and x is not p.func and (
+                p is organize_call or id(p) in cx.sub or call_name(p) == 'chain' or _is_log_call(p)
+            ):
+                ok = True
+            elif isinstance(p, ast.Call) and x is not p.func and (prog.callee(p, cx.func) in readers):
+                ok = True
+            elif isinstance(p, (ast.For, ast.comprehension)) and p.iter is x:
+                ok = True
+            elif isinstance(p, (ast.Return, ast.Assign, ast.AnnAssign)) and getattr(p, 'value', None) is x:
+                ok = True  # returned / copied to another local that is resolved in turn
+            else:
+                q = p
+                while q in par and not ok:
+                    ok = _is_log_call(q)
+                    q = par[q]
+                break
+        if not ok:
+            p = par.get(n, n)
+            out.append((p, 'method call' if isinstance(p, ast.Attribute) else 'not a plain read'))
+    return out
+
+
+def _todo_value(prog, cx, e, asp, depth=0):
     """abstract value of the collection put into 'todo': 'ALL' (exactly the all-targets marker), 'TARGETS' (db.targets()) or text"""
-    if depth > 6:
+    if depth > 8:
         return 'too deep'
+    func = cx.func
     if isinstance(e, ast.Call):
         sym = prog.callee(e, func)
         if sym == 'dawgie.db.targets' and not e.args:
             return 'TARGETS'
         wrapper = (isinstance(e.func, ast.Name) and e.func.id in _WRAPPERS) or (sym or '').startswith('dawgie.util.fifo.Unique')
         if wrapper and len(e.args) == 1 and not e.keywords:
-            return _todo_value(prog, func, e.args[0], asp, depth + 1)
+            return _todo_value(prog, cx, e.args[0], asp, depth + 1)
+        if id(e) in cx.sub and _single_return(cx.sub[id(e)].func) is not None:  # followed helper
+            return _todo_value(prog, cx.sub[id(e)], _single_return(cx.sub[id(e)].func), asp, depth + 1)
     if isinstance(e, ast.IfExp):
         t, neg = e.test, False
         while isinstance(t, ast.UnaryOp) and isinstance(t.op, ast.Not):
             t, neg = t.operand, not neg
         if isinstance(t, ast.Call) and prog.resolve_in(t.func, func) == 'dawgie.pl.schedule._is_asp':
-            return _todo_value(prog, func, e.body if asp != neg else e.orelse, asp, depth + 1)
+            return _todo_value(prog, cx, e.body if asp != neg else e.orelse, asp, depth + 1)
     if isinstance(e, (ast.List, ast.Tuple, ast.Set)) and all(isinstance(x, ast.Constant) for x in e.elts):
         vals = [x.value for x in e.elts]
         return 'ALL' if vals == ['__all__'] else f'literal {vals}'
     if isinstance(e, ast.Name):
-        v = _single_assignments(func).get(e.id)
-        if v is not None:
-            return _todo_value(prog, func, v, asp, depth + 1)
+        if e.id in cx.single:
+            return _todo_value(prog, cx, cx.single[e.id], asp, depth + 1)
+        if e.id in cx.bind and e.id not in cx.stored:
+            a, c2 = cx.bind[e.id]
+            return _todo_value(prog, c2, a, asp, depth + 1)
     return f'not understood: {norm(e)[:50]}'
 
 
@@ -1541,34 +1757,21 @@ def _rule3(ctx, rep):
                 f'current() is given the factories {sorted(kinds)} instead of analysis, regress and task: the versions of the missing '
                 'kind are never compared (or events are treated as engines)',
             )
-        unpack = {}
-        for n in build.own_nodes():
-            if isinstance(n, ast.Assign) and len(n.targets) == 1 and isinstance(n.targets[0], ast.Tuple) and isinstance(n.value, ast.Name):
-                for i, t in enumerate(n.targets[0].elts):
-                    if isinstance(t, ast.Name):
-                        unpack[t.id] = (n.value.id, i)
-        single = _single_assignments(build)
-
-        def origin(e, depth=0):
-            if isinstance(e, ast.Subscript) and isinstance(e.value, ast.Name) and isinstance(e.slice, ast.Constant) and isinstance(e.slice.value, int):
-                return e.value.id, e.slice.value
-            if isinstance(e, ast.Name) and e.id in unpack and sum(1 for k in unpack if k == e.id) == 1:
-                return unpack[e.id]
-            if isinstance(e, ast.Name) and e.id in single and depth < 3:
-                return origin(single[e.id], depth + 1)
-            return None
-
-        dcalls = calls_to(prog, build, diff.qname)
+        # build() is analysed together with the same-module helpers it calls (parameters bound to the caller's arguments)
+        scope = _scope(prog, build, {diff.qname, org.qname, isasp.qname})
+        r.extra['functions_in_scope_of_build'] = sorted({cx.func.qname for cx in scope})
+        rep.analysed(*[cx.func for cx in scope])
+        dcalls = [(c, cx) for cx in scope for c in calls_to(prog, cx.func, diff.qname)]
         compared = {}
-        for c in dcalls:
+        for c, cx in dcalls:
             r.instance()
-            key = f'{build.qname}:{norm(c)}'
+            key = f'{cx.func.qname}:{norm(c)}'
             bound = _bind_args(c, diff) or {}  # extra (defaulted) arguments are R-C15-2's business
             dp = diff.params()
-            a = origin(bound[dp[0]]) if len(dp) >= 2 and dp[0] in bound else None
-            b = origin(bound[dp[1]]) if len(dp) >= 2 and dp[1] in bound else None
+            a = _origin(e=bound[dp[0]], cx=cx, root=build) if len(dp) >= 2 and dp[0] in bound else None
+            b = _origin(e=bound[dp[1]], cx=cx, root=build) if len(dp) >= 2 and dp[1] in bound else None
             if p_latest is None or a is None or b is None or a[0] != p_latest or b[0] != p_prev:
-                r.fail(key, where(build, c), f'{norm(c)} does not compare a table of the current versions (first) with a table of the persisted versions (second)')
+                r.fail(key, where(cx.func, c), f'{norm(c)} does not compare a table of the current versions (first) with a table of the persisted versions (second)')
                 continue
             i, j = a[1], b[1]
             ca = cur_arity[i] if 0 <= i < 3 else None
@@ -1581,7 +1784,7 @@ def _rule3(ctx, rep):
             r.check(
                 not bad,
                 key,
-                where(build, c),
+                where(cx.func, c),
                 f'current table {i} ({ARITY[i][0] if 0 <= i < 3 else "?"} names, {ca} components) is compared with persisted table {j} of the same format in both backends',
                 f'current table {i} ({ca} name components) is compared with a persisted table of another name format: ' + '; '.join(bad),
             )
@@ -1594,48 +1797,41 @@ def _rule3(ctx, rep):
             f'build() compares the current tables {sorted(compared)}; algorithm (0), state-vector (1) and value (2) versions must each be compared',
         )
         # ---- (d) scheduled names
-        ocalls = calls_to(prog, build, org.qname)
+        ocalls = [(c, cx) for cx in scope for c in calls_to(prog, cx.func, org.qname)]
         r.instance(2)  # the source of the scheduled names, and the prefix expression
-        ans = None
+        comp = None
         if len(ocalls) != 1:
             r.fail(f'{build.qname}:organize', where(build), f'build() calls organize {len(ocalls)} times, expected once with the differing algorithms')
         else:
-            oc = ocalls[0]
-            a0 = _strip(arg(oc, 0, 'task_names')) if arg(oc, 0, 'task_names') is not None else None
-            comp = None
-            if isinstance(a0, ast.Name) and a0.id in single:
-                ans = a0.id
-                comp = _strip(single[ans])
-            elif a0 is not None:
-                comp = a0
+            oc, ocx = ocalls[0]
+            a0 = arg(oc, 0, 'task_names')
+            trail = []
+            comp, ccx = _resolve(a0, ocx, trail) if a0 is not None else (None, ocx)
             key = f'{build.qname}:scheduled-names'
             if not isinstance(comp, (ast.SetComp, ast.ListComp, ast.GeneratorExp)):
-                r.fail(key, where(build, oc), f'the names given to organize ({norm(oc)[:60]}) are not a comprehension over the differences: what is scheduled is not shown')
+                r.fail(key, where(ocx.func, oc), f'the names given to organize ({norm(oc)[:60]}) are not a comprehension over the differences: what is scheduled is not shown')
+                comp = None
             elif len(comp.generators) != 1 or comp.generators[0].ifs or not isinstance(comp.generators[0].target, ast.Name):
-                r.fail(key, where(build, comp), 'the comprehension building the scheduled names filters or nests: what is scheduled is not shown')
+                r.fail(key, where(ccx.func, comp), 'the comprehension building the scheduled names filters or nests: what is scheduled is not shown')
             else:
                 g = comp.generators[0]
-                leaves, todo = [], [_strip(g.iter)]
+                srcs, unknown, todo = [], [], [(g.iter, ccx)]
                 while todo:
-                    x = todo.pop()
-                    if isinstance(x, ast.BinOp) and isinstance(x.op, ast.Add):
-                        todo += [_strip(x.right), _strip(x.left)]
-                    elif isinstance(x, ast.Call) and call_name(x) == 'chain' and not x.keywords:
-                        todo += [_strip(y) for y in reversed(x.args)]
-                    else:
-                        leaves.append(x)
-                srcs, unknown = [], []
-                for x in leaves:
-                    v = single.get(x.id) if isinstance(x, ast.Name) else x
-                    if any(v is c for c in dcalls):
+                    x, xcx = todo.pop()
+                    v, vcx = _resolve(x, xcx, trail)  # through locals, helper parameters and helper results
+                    if isinstance(v, ast.BinOp) and isinstance(v.op, ast.Add):
+                        todo += [(v.right, vcx), (v.left, vcx)]
+                    elif isinstance(v, ast.Call) and call_name(v) == 'chain' and not v.keywords:
+                        todo += [(y, vcx) for y in reversed(v.args)]
+                    elif any(v is c for c, _cx in dcalls):
                         srcs.append(v)
                     else:
                         unknown.append(norm(x)[:40])
-                missing = [norm(c) for c in dcalls if not any(c is s for s in srcs)]
+                missing = [norm(c) for c, _cx in dcalls if not any(c is s for s in srcs)]
                 r.check(
                     not unknown and not missing and len(srcs) == len(dcalls),
                     f'{build.qname}:scheduled-sources',
-                    where(build, comp),
+                    where(ccx.func, comp),
                     f'the scheduled names are drawn from the {len(dcalls)} differences and nothing else',
                     f'the scheduled names are not drawn from exactly the differences: not a difference {unknown}, difference not used {missing}',
                 )
@@ -1652,89 +1848,67 @@ def _rule3(ctx, rep):
                 r.check(
                     not bad,
                     f'{build.qname}:{norm(comp.elt)}',
-                    where(build, comp),
+                    where(ccx.func, comp),
                     f'{norm(comp.elt)} is the task.alg prefix for names of {arities} components',
                     f'{norm(comp.elt)} is not the task.alg prefix of a differing name: ' + '; '.join(bad),
                 )
-            if ans is not None:
-                par = _parents(build.node)
-                for n in build.own_nodes():
-                    if isinstance(n, ast.Name) and n.id == ans and isinstance(n.ctx, ast.Load):
-                        x, ok = n, False
-                        while x in par:
-                            p = par[x]
-                            if isinstance(p, ast.Call) and isinstance(p.func, ast.Name) and p.func.id in _WRAPPERS + ('len',):
-                                x = p
-                                continue
-                            if p is oc or (isinstance(p, ast.keyword) and par.get(p) is oc):
-                                ok = True
-                            elif isinstance(p, (ast.For, ast.comprehension)) and p.iter is x:
-                                ok = True
-                            else:
-                                q = p
-                                while q in par and not ok:
-                                    ok = _is_log_call(q)
-                                    q = par[q]
-                            break
-                        if not ok:
-                            r.fail(
-                                f'{build.qname}:{ans}:{norm(par.get(n, n))[:60]}',
-                                where(build, n),
-                                f'the set of scheduled names is used in {norm(par.get(n, n))[:60]}, which may change it before organize sees it',
-                            )
+            # every local the names (or a difference) travel through is only read on the way to organize
+            for nm, ncx in {(n, id(c)): (n, c) for n, c in trail}.values():
+                for use, why in _foreign_uses(prog, nm, ncx, oc, {diff.qname}):
+                    r.fail(
+                        f'{ncx.func.qname}:{nm}:{norm(use)[:60]}',
+                        where(ncx.func, use),
+                        f'{nm}, which carries the names to schedule, is used in {norm(use)[:60]} ({why}), which may change it before organize sees it',
+                    )
         # ---- (e) todo marker
         sites = [
-            c
-            for c in build.calls()
+            (c, cx)
+            for cx in scope
+            for c in sorted(cx.func.calls(), key=lambda n: (n.lineno, n.col_offset))
             if isinstance(c.func, ast.Attribute) and c.func.attr == 'set' and len(c.args) == 2 and isinstance(c.args[0], ast.Constant) and c.args[0].value == 'todo'
         ]
         if not sites:
             r.instance()
             r.fail(f'{build.qname}:todo', where(build), "build() no longer sets the 'todo' of the rescheduled nodes: task and regression nodes are queued with nothing to do")
-        fl = _TodoFlow(prog, build, sites)
-        fl.run(build.node, '?')
-        par = _parents(build.node)
-        for c in sorted(sites, key=lambda n: (n.lineno, n.col_offset)):
+        flows = {}
+        for c, cx in sites:
             r.instance()
-            key = f'{build.qname}:{norm(c)[:90]}'
-            loops, x = [], c
-            while x in par:
-                x = par[x]
-                if isinstance(x, ast.For):
-                    loops.append(x)
+            key = f'{cx.func.qname}:{norm(c)[:90]}'
             node_ok = False
-            if isinstance(c.func.value, ast.Name):
-                for i, lp in enumerate(loops):
-                    if isinstance(lp.target, ast.Name) and lp.target.id == c.func.value.id:
-                        it = _strip(lp.iter)
-                        if isinstance(it, ast.Call) and call_name(it) == 'locate' and len(it.args) == 1 and isinstance(it.args[0], ast.Name):
-                            for outer in loops[i + 1 :]:
-                                oi = _strip(outer.iter)
-                                if isinstance(outer.target, ast.Name) and outer.target.id == it.args[0].id and isinstance(oi, ast.Name) and oi.id == ans:
-                                    node_ok = True
+            if isinstance(c.func.value, ast.Name) and comp is not None:
+                ls = _loop_source(c.func.value.id, cx, c)
+                if ls is not None:
+                    it = _strip(ls[0].iter)
+                    if isinstance(it, ast.Call) and call_name(it) == 'locate' and len(it.args) == 1 and isinstance(_strip(it.args[0]), ast.Name):
+                        ls2 = _loop_source(_strip(it.args[0]).id, ls[1], ls[0])
+                        if ls2 is not None:
+                            node_ok = _resolve(ls2[0].iter, ls2[1], [])[0] is comp
             r.check(
                 node_ok,
                 key + ':nodes',
-                where(build, c),
+                where(cx.func, c),
                 'todo is replaced only on the nodes located by a scheduled name',
                 'todo is replaced on nodes that are not the ones located by the differing algorithm names',
             )
+            if id(cx.func) not in flows:
+                fl = flows[id(cx.func)] = _TodoFlow(prog, cx.func, [s for s, sx in sites if sx.func is cx.func])
+                fl.run(cx.func.node, '?')
             states = set()
-            for s in fl.sites[id(c)]:
+            for s in flows[id(cx.func)].sites[id(c)]:
                 states |= {True, False} if s == '?' else {s}
             if not states:
-                r.fail(key + ':value', where(build, c), 'this todo assignment is not reachable in the flow of build()')
+                r.fail(key + ':value', where(cx.func, c), 'this todo assignment is not reachable in the flow of its function')
                 continue
             bad = []
             for asp in sorted(states):
-                got = _todo_value(prog, build, c.args[1], asp)
+                got = _todo_value(prog, cx, c.args[1], asp)
                 want = 'ALL' if asp else 'TARGETS'
                 if got != want:
                     bad.append(f'{"analysis" if asp else "task/regression"} node gets {got}, expected {want}')
             r.check(
                 not bad,
                 key + ':value',
-                where(build, c),
+                where(cx.func, c),
                 "analysis node: ['__all__']; any other node: db.targets()",
                 'todo of a rescheduled node is wrong: ' + '; '.join(bad),
             )
@@ -1799,7 +1973,6 @@ VARIANTS = [
     V('subclass overrides __lt__', 'B', 'db/post/__init__.py', 'MyVersion', 'pass', 'def __lt__(self, other):\n        return False', 'R-C15-1'),
     V('__lt__ written out lexicographically', 'N', _I, 'Version.__lt__', 'return self.__le__(other) and self.__ne__(other)',
       'if self.design() != other.design():\n            return self.design() < other.design()\n        if self.implementation() != other.implementation():\n            return self.implementation() < other.implementation()\n        return self.bugfix() < other.bugfix()', None),
-    V('__ne__ left to the default', 'N', _I, 'Version', 'def __ne__(self, other):\n        return any(\n            [\n                self.design() != other.design(),\n                self.implementation() != other.implementation(),\n                self.bugfix() != other.bugfix(),\n            ]\n        )', '', None),
     V('__gt__ compares the attribute behind the hook', 'B', _I, 'Version.__gt__', 'return self.__ge__(other) and self.__ne__(other)', 'return self._version_ > other._version_', 'R-C15-1'),
     V('design() bypasses _get_ver', 'B', _I, 'Version.design', 'return self._get_ver().design', 'return self._version_.design', 'R-C15-1'),
     V('__gt__ as tuple comparison of the accessors', 'N', _I, 'Version.__gt__', 'return self.__ge__(other) and self.__ne__(other)', 'return (self.design(), self.implementation(), self.bugfix()) > (other.design(), other.implementation(), other.bugfix())', None),
@@ -1808,9 +1981,9 @@ VARIANTS = [
     V('_diff with != 0', 'B', _S, '_diff', 'prev[k].count(curr[k]) == 0', 'prev[k].count(curr[k]) != 0', 'R-C15-2'),
     V('_diff requires a single occurrence', 'B', _S, '_diff', 'prev[k].count(curr[k]) == 0', 'prev[k].count(curr[k]) != 1', 'R-C15-2'),
     V('_diff stops at the first difference', 'B', _S, '_diff', 'diff.append(k)', 'diff.append(k)\n            break', 'R-C15-2'),
-    V('_diff looks the list up before the presence test', 'B', _S, '_diff', 'if k not in prev or prev[k].count(curr[k]) == 0:', 'if prev[k].count(curr[k]) == 0 or k not in prev:', 'R-C15-2'),
     V('_diff skips names by an undelimited prefix', 'B', _S, '_diff', 'def _diff(curr, prev):\n    diff = []\n    for k in curr:', "def _diff(curr, prev, known=('x',)):\n    diff = []\n    for k in curr:\n        if k.startswith(known):\n            continue", 'R-C15-2'),
     V('_diff gets a defaulted parameter nobody sets', 'N', _S, '_diff', 'def _diff(curr, prev):\n    diff = []\n    for k in curr:', "def _diff(curr, prev, known=(), verbose=False):\n    diff = []\n    for k in curr:\n        if verbose:\n            log.debug('checking %s', k)\n        if k.startswith(known):\n            continue", None),
+    V('_diff guard in a helper', 'N', _S, '_diff', 'def _diff(curr, prev):\n    diff = []\n    for k in curr:\n        if k not in prev or prev[k].count(curr[k]) == 0:', 'def _persisted(name, ver, table):\n    return name in table and ver in table[name]\n\n\ndef _diff(curr, prev):\n    diff = []\n    for k in curr:\n        if not _persisted(k, curr[k], prev):', None),
     V('_diff as not in prev.get', 'N', _S, '_diff', 'if k not in prev or prev[k].count(curr[k]) == 0:', 'if curr[k] not in prev.get(k, []):', None),
     V('_diff with continue and logging', 'N', _S, '_diff', 'if k not in prev or prev[k].count(curr[k]) == 0:\n            diff.append(k)',
       'known = prev.get(k)\n        if known is not None and curr[k] in known:\n            continue\n        log.debug("version of %s changed", k)\n        diff.append(k)', None),
@@ -1826,10 +1999,14 @@ VARIANTS = [
     V('analysis scheduled for the target list', 'B', _S, 'build', "['__all__'] if _is_asp(n) else trglist", 'trglist', 'R-C15-3'),
     V('_is_asp tests the task factory', 'B', _S, '_is_asp', 'dawgie.Factories.analysis.name', 'dawgie.Factories.task.name', 'R-C15-3'),
     V('value stored with the state-vector version', 'B', _PV, 'current', 'tv[name] = sv[k].asstring()', 'tv[name] = sv.asstring()', 'R-C15-3'),
-    V('value name under another algorithm name', 'B', _PV, 'current', "name = '.'.join([bot._name(), alg.name(), sv.name(), k])", "name = '.'.join([bot._name(), sv.name(), alg.name(), k])", 'R-C15-3'),
     V('shelve versions returns tables swapped', 'B', 'db/shelve/__init__.py', 'versions', 'return tasks_vers, algs_vers, svs_vers, vals_vers', 'return tasks_vers, svs_vers, algs_vers, vals_vers', 'R-C15-3'),
     V('post algorithm key is the bare name', 'B', 'db/post/__init__.py', 'versions', "'.'.join([_find(tsk, pk=a['task_id'])['name'], a['name']]),", "a['name'],", 'R-C15-3'),
     V('analysis factories not versioned', 'B', 'pl/state.py', 'FSM._pipeline', 'facs[dawgie.Factories.analysis]\n                    + facs[dawgie.Factories.regress]', 'facs[dawgie.Factories.regress]', 'R-C15-3'),
+    V('differences and name set extracted into a helper', 'N', _S, 'build', "def build(factories, latest, previous):\n    log.info('build() - starting to build DAG')\n    dawgie.pl.schedule.ae = dawgie.pl.dag.Construct(factories)\n    promote.ae = dawgie.pl.schedule.ae\n    promote.organize = dawgie.pl.schedule.organize\n    dawgie.pl.schedule.que = []\n    dawgie.pl.schedule.per = []\n    log.info('build() - computing version differences')\n    dalg = _diff(latest[0], previous[1])\n    dsv = _diff(latest[1], previous[2])\n    dv = _diff(latest[2], previous[3])\n    ans = {'.'.join(item.split('.')[:2]) for item in dalg + dsv + dv}", "def _outdated(cur, old):\n    dalg = _diff(cur[0], old[1])\n    dsv = _diff(cur[1], old[2])\n    dv = _diff(cur[2], old[3])\n    return {'.'.join(item.split('.')[:2]) for item in dalg + dsv + dv}\n\n\ndef build(factories, latest, previous):\n    log.info('build() - starting to build DAG')\n    dawgie.pl.schedule.ae = dawgie.pl.dag.Construct(factories)\n    promote.ae = dawgie.pl.schedule.ae\n    promote.organize = dawgie.pl.schedule.organize\n    dawgie.pl.schedule.que = []\n    dawgie.pl.schedule.per = []\n    log.info('build() - computing version differences')\n    ans = _outdated(latest, previous)", None),
+    V('extracted helper pairs the wrong persisted table', 'B', _S, 'build', "def build(factories, latest, previous):\n    log.info('build() - starting to build DAG')\n    dawgie.pl.schedule.ae = dawgie.pl.dag.Construct(factories)\n    promote.ae = dawgie.pl.schedule.ae\n    promote.organize = dawgie.pl.schedule.organize\n    dawgie.pl.schedule.que = []\n    dawgie.pl.schedule.per = []\n    log.info('build() - computing version differences')\n    dalg = _diff(latest[0], previous[1])\n    dsv = _diff(latest[1], previous[2])\n    dv = _diff(latest[2], previous[3])\n    ans = {'.'.join(item.split('.')[:2]) for item in dalg + dsv + dv}", "def _outdated(cur, old):\n    dalg = _diff(cur[0], old[1])\n    dsv = _diff(cur[1], old[3])\n    dv = _diff(cur[2], old[3])\n    return {'.'.join(item.split('.')[:2]) for item in dalg + dsv + dv}\n\n\ndef build(factories, latest, previous):\n    log.info('build() - starting to build DAG')\n    dawgie.pl.schedule.ae = dawgie.pl.dag.Construct(factories)\n    promote.ae = dawgie.pl.schedule.ae\n    promote.organize = dawgie.pl.schedule.organize\n    dawgie.pl.schedule.que = []\n    dawgie.pl.schedule.per = []\n    log.info('build() - computing version differences')\n    ans = _outdated(latest, previous)", 'R-C15-3'),
+    V('extracted helper keeps three name components', 'B', _S, 'build', "def build(factories, latest, previous):\n    log.info('build() - starting to build DAG')\n    dawgie.pl.schedule.ae = dawgie.pl.dag.Construct(factories)\n    promote.ae = dawgie.pl.schedule.ae\n    promote.organize = dawgie.pl.schedule.organize\n    dawgie.pl.schedule.que = []\n    dawgie.pl.schedule.per = []\n    log.info('build() - computing version differences')\n    dalg = _diff(latest[0], previous[1])\n    dsv = _diff(latest[1], previous[2])\n    dv = _diff(latest[2], previous[3])\n    ans = {'.'.join(item.split('.')[:2]) for item in dalg + dsv + dv}", "def _outdated(cur, old):\n    dalg = _diff(cur[0], old[1])\n    dsv = _diff(cur[1], old[2])\n    dv = _diff(cur[2], old[3])\n    return {'.'.join(item.split('.')[:3]) for item in dalg + dsv + dv}\n\n\ndef build(factories, latest, previous):\n    log.info('build() - starting to build DAG')\n    dawgie.pl.schedule.ae = dawgie.pl.dag.Construct(factories)\n    promote.ae = dawgie.pl.schedule.ae\n    promote.organize = dawgie.pl.schedule.organize\n    dawgie.pl.schedule.que = []\n    dawgie.pl.schedule.per = []\n    log.info('build() - computing version differences')\n    ans = _outdated(latest, previous)", 'R-C15-3'),
+    V('extracted helper called with the tables swapped', 'B', _S, 'build', "def build(factories, latest, previous):\n    log.info('build() - starting to build DAG')\n    dawgie.pl.schedule.ae = dawgie.pl.dag.Construct(factories)\n    promote.ae = dawgie.pl.schedule.ae\n    promote.organize = dawgie.pl.schedule.organize\n    dawgie.pl.schedule.que = []\n    dawgie.pl.schedule.per = []\n    log.info('build() - computing version differences')\n    dalg = _diff(latest[0], previous[1])\n    dsv = _diff(latest[1], previous[2])\n    dv = _diff(latest[2], previous[3])\n    ans = {'.'.join(item.split('.')[:2]) for item in dalg + dsv + dv}", "def _outdated(cur, old):\n    dalg = _diff(cur[0], old[1])\n    dsv = _diff(cur[1], old[2])\n    dv = _diff(cur[2], old[3])\n    return {'.'.join(item.split('.')[:2]) for item in dalg + dsv + dv}\n\n\ndef build(factories, latest, previous):\n    log.info('build() - starting to build DAG')\n    dawgie.pl.schedule.ae = dawgie.pl.dag.Construct(factories)\n    promote.ae = dawgie.pl.schedule.ae\n    promote.organize = dawgie.pl.schedule.organize\n    dawgie.pl.schedule.que = []\n    dawgie.pl.schedule.per = []\n    log.info('build() - computing version differences')\n    ans = _outdated(previous, latest)", 'R-C15-3'),
+    V('todo through a temporary and a marker helper', 'N', _S, 'build', "n.set(\n                    'todo',\n                    dawgie.util.fifo.Unique(\n                        ['__all__'] if _is_asp(n) else trglist\n                    ),\n                )", "targets = ['__all__'] if _is_asp(n) else trglist\n                fresh = dawgie.util.fifo.Unique(targets)\n                n.set('todo', fresh)", None),
     V('tables unpacked first', 'N', _S, 'build', 'dalg = _diff(latest[0], previous[1])\n    dsv = _diff(latest[1], previous[2])\n    dv = _diff(latest[2], previous[3])',
       'calg, csv, cv = latest\n    palg = previous[1]\n    dalg = _diff(calg, palg)\n    dsv = _diff(csv, previous[2])\n    dv = _diff(cv, previous[3])', None),
     V('scheduled names through set(generator) with explicit slice', 'N', _S, 'build', "ans = {'.'.join(item.split('.')[:2]) for item in dalg + dsv + dv}", "ans = set('.'.join(item.split('.')[0:2]) for item in dv + dalg + dsv)", None),
@@ -1840,5 +2017,4 @@ VARIANTS = [
     V('current names as f-strings with hoisted parts', 'N', _PV, 'current', "name = '.'.join([bot._name(), alg.name(), sv.name()])", "svn = sv.name()\n                name = f'{bot._name()}.{alg.name()}.{svn}'", None),
     V('current values through items()', 'N', _PV, 'current', "for k in sv.keys():\n                    name = '.'.join([bot._name(), alg.name(), sv.name(), k])  # fmt: skip # pylint: disable=protected-access\n                    if name not in tv:\n                        tv[name] = sv[k].asstring()",
       "for k, val in sv.items():\n                    name = '.'.join([bot._name(), alg.name(), sv.name(), k])\n                    if name not in tv:\n                        tv[name] = val.asstring()", None),
-    V('shelve versions with setdefault', 'N', 'db/shelve/__init__.py', 'versions', "if key in vals_vers:\n            vals_vers[key].append(vv.asstring())\n        else:\n            vals_vers[key] = [vv.asstring()]", "vals_vers.setdefault(key, []).append(vv.asstring())", None),
 ]
